@@ -28,6 +28,10 @@ CONSTANTS FIX_D01,    \* promotion for ~ << >> and unary +
           FIX_D10,    \* eval2: ND_CAST arm typed by signedness, _Bool cast, results re-wrapped, ND_MOD constant
           MUT         \* "none" | "setl" | "movz" | "cdq" | "castrow" | "ptrsx" (pointer offset always sign-extended)
                       \* | "atomicval" | "enumearly" | "asgskip" | "lenot" (enumerator in scope before its own value is evaluated)
+                      \* | "castnoround" (eval_double rounds only in the four operators and in narrowing floating casts)
+                      \* | "nonint" (is_const_expr: a node of non-integer type is not constant)
+                      \* | "commaconst" (is_const_expr: `a, b` is constant if b is)  | "condtrunc" (is_const_expr selects the arm of ?: by eval(), truncating a floating condition)
+                      \* | "bfnoconv" (static bit-field initializer not converted to the member's type)  | "bfmask" (mask (1L << width) - 1 with the host's shift count modulo the word size)
 
 WI == WInt
 WL == WLong
@@ -259,14 +263,73 @@ CEUn(op, a, va) ==
     [] op = "pos"  -> IF FIX_D01 THEN LET pt == PromoI(a) IN CR(pt, CastC(pt, va)) ELSE CR(a, va)
     [] OTHER       -> CR("int", Bool01(va = 0))
 
+(* ---- floating nodes: parse.c eval_double / eval_flonum and the floating arms of eval3.  A floating value is a
+   host long double; only integer-valued ones occur here, so it is an integer (PLdbl = WL: every int64_t /
+   uint64_t is exact).  RoundTo = the host's `(float)val` / `(double)val` (round to nearest even).          *)
+RoundTo(t, v) == FRound(Prec(t), v)
+(* eval_double on a node of integer type: `is_unsigned ? (unsigned long)eval(node) : eval(node)` *)
+AsLD(c) == IF IsF(c.t) THEN c.v ELSE IF ~Sg(c.t) THEN U(c.v, WL) ELSE c.v
+(* type.c get_common_type with a floating operand *)
+CommonG(a, b) == IF IsF(a) \/ IsF(b) THEN (IF FRank(a) >= FRank(b) THEN a ELSE b) ELSE Common(a, b)
+(* a ND_CAST node of type t over an operand c = [t, v]:
+     floating t: eval_double(node) = eval_flonum's `return eval_double(node->lhs)` rounded to node->ty
+                 (MUT "castnoround": rounded only when a floating value is narrowed)
+     integer t, floating operand: eval3's ND_CAST arm: _Bool `!= 0`, 8-byte unsigned `(uint64_t)fval`, otherwise
+                 eval2(lhs) = `(int64_t)eval_double(lhs)` and then fit_int
+     integer t, integer operand: fit_int *)
+CECast(t, c) ==
+  IF IsF(t) THEN CR(t, IF MUT = "castnoround" /\ ~(IsF(c.t) /\ FRank(t) < FRank(c.t)) THEN AsLD(c) ELSE RoundTo(t, AsLD(c)))
+  ELSE IF IsF(c.t) THEN (IF t = "bool" THEN CR(t, Bool01(c.v # 0))
+                         ELSE IF Is64(t) /\ ~Sg(t) THEN CR(t, H(c.v))
+                         ELSE CR(t, CastC(t, H(c.v))))
+  ELSE CR(t, CastC(t, c.v))
+(* a binary operator with a floating operand: usual_arith_conv casts both to the common type; + - are computed in
+   that type (EVAL_FLONUM_OP: `T x = lhs, y = rhs; return x + y;`, then eval_double rounds to node->ty once more);
+   comparisons use the host's long double comparison; && || use eval_truth *)
+CEFBin(op, a, b) ==
+  LET ct == CommonG(a.t, b.t)  x == CECast(ct, a).v  y == CECast(ct, b).v IN
+  CASE op = "add" -> CR(ct, RoundTo(ct, RoundTo(ct, x) + RoundTo(ct, y)))
+    [] op = "sub" -> CR(ct, RoundTo(ct, RoundTo(ct, x) - RoundTo(ct, y)))
+    [] op = "lt" -> CR("int", Bool01(x < y)) [] op = "gt" -> CR("int", Bool01(y < x))
+    [] op = "le" -> CR("int", Bool01(x <= y)) [] op = "ge" -> CR("int", Bool01(y <= x))
+    [] op = "eq" -> CR("int", Bool01(x = y)) [] op = "ne" -> CR("int", Bool01(x # y))
+    [] op = "land" -> CR("int", Bool01(a.v # 0 /\ b.v # 0))
+    [] OTHER -> CR("int", Bool01(a.v # 0 \/ b.v # 0))
+CEFUn(op, a) ==
+  CASE op = "neg" -> CR(a.t, IF MUT = "castnoround" THEN -a.v ELSE RoundTo(a.t, -a.v))
+    [] op = "pos" -> a
+    [] OTHER -> CR("int", Bool01(a.v = 0))                \* ND_NOT: !eval_truth
+
 RECURSIVE CE(_)
+(* eval_truth: a floating operand is compared with 0 as a floating value *)
+CETruth(e) == IF e.k = "fv" THEN FTruth(e.x) ELSE CE(e).v # 0
 CE(e) ==
-  CASE e.k = "leaf" -> CR(e.t, H(e.v))                    \* ND_NUM (val is int64_t), or a cast of one
-    [] e.k = "un"   -> LET a == CE(e.a) IN CEUn(e.op, a.t, a.v)
-    [] e.k = "cast" -> LET a == CE(e.a) IN CR(e.t, CastC(e.t, a.v))
-    [] e.k = "bin"  -> LET a == CE(e.a)  b == CE(e.b) IN CEBin(e.op, a.t, a.v, b.t, b.v)
-    [] OTHER        -> LET c == CE(e.c)  a == CE(e.a)  b == CE(e.b)  ct == Common(a.t, b.t)
-                       IN CR(ct, IF c.v # 0 THEN CastC(ct, a.v) ELSE CastC(ct, b.v))
+  CASE e.k = "leaf" -> CR(e.t, IF IsF(e.t) THEN e.v ELSE H(e.v))      \* ND_NUM (val is int64_t / fval), or a cast of one
+    [] e.k = "call" -> CR(e.t, 0)                          \* error_tok("not a compile-time constant"): see CEOk
+    [] e.k = "fv"   -> CR(e.t, e.x.tr)                     \* only the type is used (the parent looks at e.x)
+    [] e.k = "un"   -> IF e.a.k = "fv" THEN CR("int", Bool01(~FTruth(e.a.x)))
+                       ELSE LET a == CE(e.a) IN IF IsF(a.t) THEN CEFUn(e.op, a) ELSE CEUn(e.op, a.t, a.v)
+    [] e.k = "cast" -> IF e.a.k = "fv"                     \* (T)2.5: _Bool compares with 0, otherwise the host truncates
+                       THEN CR(e.t, IF e.t = "bool" THEN Bool01(FTruth(e.a.x)) ELSE CastC(e.t, e.a.x.tr))
+                       ELSE CECast(e.t, CE(e.a))
+    [] e.k = "comma" -> CE(e.b)                            \* eval3 ND_COMMA: eval2(node->rhs); the left operand is dropped
+    [] e.k = "bin"  -> IF e.op \in LogOps /\ (e.a.k = "fv" \/ e.b.k = "fv")
+                       THEN CR("int", Bool01(IF e.op = "land" THEN CETruth(e.a) /\ CETruth(e.b) ELSE CETruth(e.a) \/ CETruth(e.b)))
+                       ELSE LET a == CE(e.a)  b == CE(e.b) IN
+                            IF IsF(a.t) \/ IsF(b.t) THEN CEFBin(e.op, a, b) ELSE CEBin(e.op, a.t, a.v, b.t, b.v)
+    [] OTHER        -> LET a == CE(e.a)  b == CE(e.b)  ct == CommonG(a.t, b.t)
+                       IN IF CETruth(e.c) THEN CECast(ct, a) ELSE CECast(ct, b)
+(* the folder reaches no error_tok("not a compile-time constant") *)
+RECURSIVE CEOk(_)
+CEOk(e) ==
+  CASE e.k \in {"leaf", "fv"} -> TRUE
+    [] e.k = "call" -> FALSE
+    [] e.k \in {"un", "cast"} -> CEOk(e.a)
+    [] e.k = "comma" -> CEOk(e.b)
+    [] e.k = "bin" -> (IF e.op = "land" THEN CEOk(e.a) /\ (CETruth(e.a) => CEOk(e.b))
+                       ELSE IF e.op = "lor" THEN CEOk(e.a) /\ (~CETruth(e.a) => CEOk(e.b))
+                       ELSE CEOk(e.a) /\ CEOk(e.b))
+    [] OTHER -> CEOk(e.c) /\ CEOk(IF CETruth(e.c) THEN e.a ELSE e.b)
 
 (* floating operands (eval3: fl/fr are host long doubles, C's own comparison operators; eval_truth).
    MUT = "lenot": a <= b computed as !(b < a), true for unordered operands. *)
@@ -280,20 +343,43 @@ CEFCmp(op, x, y) ==
               [] op = "land" -> FTruth(x) /\ FTruth(y) [] op = "lor" -> FTruth(x) \/ FTruth(y)
               [] OTHER -> ~FTruth(x))
 
-(* parse.c is_const_expr (decides array vs VLA) *)
+(* parse.c is_const_expr (decides array vs VLA).  eval(cond) of a floating condition truncates it (0.5 -> 0; NaN and
+   huge values -> INT64_MIN on x86-64): MUT "condtrunc" *)
+FvTrunc(x) == x.nan \/ x.big \/ x.tr # 0
 RECURSIVE IsConst(_)
 IsConst(e) ==
-  CASE e.k = "leaf" -> TRUE
+  IF MUT = "nonint" /\ IsF(CE(e).t) THEN FALSE ELSE
+  CASE e.k \in {"leaf", "fv"} -> TRUE                      \* ND_NUM
+    [] e.k = "call" -> FALSE
     [] e.k = "un"   -> IsConst(e.a)
     [] e.k = "cast" -> IsConst(e.a)
+    [] e.k = "comma" -> IF MUT = "commaconst" THEN IsConst(e.b) ELSE FALSE
     [] e.k = "bin"  -> IF e.op = "mod" /\ ~FIX_D10 THEN FALSE ELSE IsConst(e.a) /\ IsConst(e.b)   \* ND_MOD is missing from the switch
-    [] OTHER        -> IsConst(e.c) /\ IsConst(IF CE(e.c).v # 0 THEN e.a ELSE e.b)
+    [] OTHER        -> IsConst(e.c) /\ IsConst(IF (IF MUT = "condtrunc" /\ e.c.k = "fv" THEN FvTrunc(e.c.x) ELSE CETruth(e.c))
+                                                THEN e.a ELSE e.b)
+
+(* static-storage bit-field initializer (parse.c write_gvar_data): newval = eval(new_cast(expr, mem->ty)),
+   mask = width == 64 ? -1 : (1L << width) - 1; the object holds newval & mask.  BfRead = what a read of the
+   member yields (codegen.c: shl / sar or shr by 64 - width; C04 checks that side) *)
+BfStore(t, w, e) ==
+  LET nv   == IF MUT = "bfnoconv" THEN (IF e.k = "fv" THEN e.x.tr ELSE CE(e).v) ELSE CE(CastE(t, e)).v
+      mask == IF MUT = "bfmask" THEN 2 ^ (w % WL) - 1 ELSE 2 ^ w - 1
+  IN U(nv, WL) & mask
+BfRead(t, w, m) == IF Sg(t) THEN S(m, w) ELSE m
 
 (* eval2's int64_t agrees with Level A: exactly for types narrower than the host word
    (so that every consumer may narrow or widen it), modulo 2^WL for long / unsigned long *)
 ConstAgrees(e) ==
   LET a == Ev(e)  c == CE(e) IN
   a.ok => /\ TyObs(c.t) = TyObs(a.t)
-          /\ IF W(a.t) < WL THEN c.v = a.v ELSE U(c.v, WL) = U(a.v, WL)
+          /\ IF IsF(a.t) THEN c.t = a.t /\ c.v = a.v
+             ELSE IF W(a.t) < WL THEN c.v = a.v ELSE U(c.v, WL) = U(a.v, WL)
           /\ IsConst(e)
+(* the array / VLA decision (parse.c array_dimensions): when is_const_expr says "constant" the bound is folded
+   and nothing is evaluated at run time - so the folder must succeed, give the C11 value, and the expression
+   must have no side effect to lose; every integer constant expression must be recognised (6.7.6.2p4) *)
+ArrayDecision(e) ==
+  LET a == Ev(e) IN
+  a.ok => /\ IsConst(e) => CEOk(e) /\ Effects(e) = 0 /\ CE(e).v = a.v
+          /\ IsICE(e) => IsConst(e)
 =============================================================================
